@@ -112,6 +112,26 @@ def go_build(cmd_name, tags="verif", overlay=None, race=False):
         return out, ""
 
 
+def make_overlay(name, clock_files, extra_dir=None):
+    """generate a go build -overlay file (injected clock + add-only accessor files) from REPO's current
+    files; returns (overlay.json path | None, error text)"""
+    exe, err = go_build("clockoverlay", tags="")
+    if exe is None:
+        return None, "clockoverlay does not build:\n" + err
+    tag = hashlib.sha1(REPO.encode()).hexdigest()[:10]
+    out = os.path.join(BUILD, "overlay-%s-%s" % (name, tag))
+    with Lock("overlay-" + name):
+        shutil.rmtree(out, ignore_errors=True)
+        os.makedirs(out)
+        cmd = [exe, "-repo", REPO, "-out", out]
+        if extra_dir:
+            cmd += ["-extra", os.path.join(HARNESS, "overlay", extra_dir) if not os.path.isabs(extra_dir) else extra_dir]
+        rc, o = sh(cmd + list(clock_files), timeout=120)
+    if rc != 0:
+        return None, "clockoverlay failed:\n" + o
+    return os.path.join(out, "overlay.json"), o
+
+
 def regen_facts():
     """regenerate PdModel/Generated/<Area>.lean from REPO (facts/<Area>.json); returns (ok, message)"""
     exe, err = go_build("factgen", tags="")
